@@ -108,6 +108,7 @@ type FuncContract struct {
 	PkgInit    bool
 	Reveals    []string // opaque spec functions whose definition this proof needs
 	WrapAround bool // int arithmetic wraps (Go semantics) instead of carrying an overflow obligation
+	Proves     []Clause // proof hints at every return: proved as an obligation, then assumed for the postconditions
 	Defines    []Clause // ghost definitions about fresh results: assumed by callers, not checked in the body
 	AllocBound *Clause
 	Forbids    []string
@@ -597,7 +598,7 @@ var clauseKW = map[string]bool{
 	"func": true, "spec": true, "uf": true, "ghost": true, "axiom": true, "lemma": true, "pred": true,
 	"requires": true, "ensures": true, "assigns": true, "loop": true, "safety": true,
 	"props": true, "trusted": true, "inline": true, "pure": true, "maypanic": true, "nobody": true,
-	"extern": true, "opaque": true, "uses": true, "allocbound": true, "forbids": true, "decreases": true, "invariant": true, "defines": true, "wraparound": true, "reveals": true,
+	"extern": true, "opaque": true, "uses": true, "allocbound": true, "forbids": true, "decreases": true, "invariant": true, "defines": true, "proves": true, "wraparound": true, "reveals": true,
 }
 
 type rawClause struct {
@@ -734,7 +735,7 @@ func ParseContractFile(path string) (*ContractFile, error) {
 				} else {
 					cur.Decreases = cl
 				}
-			case "requires", "ensures", "defines":
+			case "requires", "ensures", "defines", "proves":
 				label, text := splitLabel(rc.text)
 				e, err := ParseExpr(text)
 				if err != nil {
@@ -745,6 +746,8 @@ func ParseContractFile(path string) (*ContractFile, error) {
 					cur.Requires = append(cur.Requires, cl)
 				} else if rc.kw == "defines" {
 					cur.Defines = append(cur.Defines, cl)
+				} else if rc.kw == "proves" {
+					cur.Proves = append(cur.Proves, cl)
 				} else {
 					cur.Ensures = append(cur.Ensures, cl)
 				}
